@@ -126,13 +126,27 @@ static void bad()
 static usize countOf(M&, const Key&, bool& ok) { ok = false; return 0; }
 static usize countOf(X& c, const Key& k, bool& ok) { ok = true; return c.count(k); }
 
-template<class C> static void wb(const typename C::Item* i)
+// item identity = 4 * (allocation number of its block) + index in the block (never an address)
+template<class C> static long idOf(const C& c, const typename C::Item* it)
+{
+  long nblocks = 0, pos = 0;
+  for(const typename C::ItemBlock* b = c.blocks; b; b = b->next) ++nblocks;
+  for(const typename C::ItemBlock* b = c.blocks; b; b = b->next, ++pos)
+  {
+    const typename C::Item* first = (const typename C::Item*)(b + 1);
+    if(it >= first && it < first + 4)
+      return 4 * (nblocks - 1 - pos) + (long)(it - first);
+  }
+  return -1;
+}
+
+template<class C> static void wb(const C& c, const typename C::Item* i)
 {
   if(!i) { printf("."); return; }
   printf("(");
-  wb<C>(i->left);
-  printf(" %d:%lu:%ld ", i->key.k, (unsigned long)i->height, (long)i->slope);
-  wb<C>(i->right);
+  wb(c, i->left);
+  printf(" %ld/%d:%lu:%ld ", idOf(c, i), i->key.k, (unsigned long)i->height, (long)i->slope);
+  wb(c, i->right);
   printf(")");
 }
 
@@ -144,7 +158,14 @@ template<class C> static bool doOp(C& c, HxLine& l)
   int n = l.ntok - 2;
   g_cmps = 0;
   if(!strcmp(op, "nop") && n == 0) { observe(c, "-", 0); return true; }
-  if(!strcmp(op, "wb") && n == 0) { wb<C>(c.root); hxEndLine(); return true; }
+  if(!strcmp(op, "wb") && n == 0)
+  {
+    wb(c, c.root);
+    printf(" free");
+    for(const typename C::Item* f = c.freeItem; f; f = f->prev) printf(" %ld", idOf(c, f));
+    hxEndLine();
+    return true;
+  }
   if(!strcmp(op, "ins") && n == 2)
   {
     typename C::Iterator it = c.insert(Key((int)hxInt(l, 2)), (int)hxInt(l, 3));
